@@ -273,7 +273,7 @@ fn body(pool: &Pool, s: &Script, rng: &mut Rng, obs: &mut Obs) {
                     let t = &pool.targets[ti];
                     let img0 = img(t.addr);
                     let r = std::panic::catch_unwind(std::panic::AssertUnwindSafe(|| inj.when_called((t.mk)()).will_execute_raw(injectorpp::func!(fn (wrong_sig)(i64) -> i32))));
-                    if img(t.addr) != img0 || (t.call)() != expect {
+                    if img_differs(t.addr, &img0) || (t.call)() != expect {
                         obs.refused_target_intact = false;
                     }
                     if let Err(e) = r {
@@ -561,7 +561,7 @@ pub fn run(ctx: &Ctx) {
         // (d) everything restored
         if sig.is_empty() {
             for (i, t) in pool.targets.iter().enumerate() {
-                if img(t.addr) != images[i] {
+                if img_differs(t.addr, &images[i]) {
                     sig = "target-not-restored-after-unwind".into();
                     d = d.s("target", &t.name);
                     break;
